@@ -10,6 +10,7 @@ package nbio
 import (
 	"encoding/binary"
 	"errors"
+	"io"
 	"net"
 	"runtime"
 	"sync"
@@ -144,6 +145,7 @@ type Conn struct {
 	jobList []func()
 
 	readEvents int32
+	peerClosed int32
 
 	dataHandler func(c *Conn, data []byte)
 
@@ -205,6 +207,11 @@ func (c *Conn) AsyncRead() {
 					break
 				}
 			}
+			if atomic.LoadInt32(&c.peerClosed) == 1 {
+				c.drain(pBuf)
+				_ = c.closeWithError(io.EOF)
+				return
+			}
 			if atomic.AddInt32(&c.readEvents, -1) == 0 {
 				if g.isOneshot {
 					c.ResetPollerEvent()
@@ -213,6 +220,48 @@ func (c *Conn) AsyncRead() {
 			}
 		}
 	})
+}
+
+// closeAfterDrain handles the end of the peer's stream: the data the peer
+// sent before it closed (or half-closed) is handed over, then the connection
+// is closed. With async reading this is left to the read job, so that it is
+// serialized with the reads that are still running.
+//
+//go:norace
+func (c *Conn) closeAfterDrain(async bool) {
+	if async {
+		atomic.StoreInt32(&c.peerClosed, 1)
+		c.AsyncRead()
+		return
+	}
+	g := c.p.g
+	pbuf := g.borrow(c)
+	c.drain(pbuf)
+	g.payback(c, pbuf)
+	_ = c.closeWithError(io.EOF)
+}
+
+// drain reads and delivers until the end of the stream, an empty socket or
+// an error.
+//
+//go:norace
+func (c *Conn) drain(pbuf *[]byte) {
+	g := c.p.g
+	full := cap(*pbuf)
+	for {
+		*pbuf = (*pbuf)[:full]
+		rc, n, err := c.ReadAndGetConn(pbuf)
+		if n > 0 {
+			*pbuf = (*pbuf)[:n]
+			g.onDataPtr(rc, pbuf)
+		}
+		if errors.Is(err, syscall.EINTR) {
+			continue
+		}
+		if n <= 0 || err != nil {
+			return
+		}
+	}
 }
 
 // Read .
